@@ -131,6 +131,7 @@ func c02(c *ev.Ctx) {
 			c.Case(gast.Text(sw.p)+fmt.Sprint(noOpt), judged > 0)
 		}
 	})
+	c02ConstantConditions(c)
 	c02ExitHistories(c)
 	// fixed regression / probe cases
 	c02Probes(c)
@@ -269,6 +270,77 @@ func c02Probes(c *ev.Ctx) {
 		c.Case(id, true)
 		if got != want {
 			c.Violation(id, "nested iteration over one container", map[string]interface{}{"summary": fmt.Sprintf("%s gives %s, expected %s", script, got, want), "script": script})
+		}
+	}
+}
+
+// c02ConstantConditions: the same control-flow shapes with conditions the optimizer can
+// decide (true, false, 1 == 1, 2 < 1, a folded sum), returns in one arm / both / none, at
+// top level and inside a function, with and without an earlier conditional jump.
+func c02ConstantConditions(c *ev.Ctx) {
+	id := func(n string) gast.Expr { return gast.Ident{Name: n} }
+	il := func(v int64) gast.Expr { return gast.IntLit{V: v} }
+	tr := func(k int64, a ...gast.Expr) gast.Stmt {
+		return gast.ExprStmt{X: gast.Call{Fn: "t", Args: append([]gast.Expr{il(k)}, a...)}}
+	}
+	conds := []gast.Expr{gast.BoolLit{V: true}, gast.BoolLit{V: false}, gast.Infix{Op: "==", L: il(1), R: il(1)}, gast.Infix{Op: "<", L: il(2), R: il(1)},
+		gast.Infix{Op: "==", L: gast.Infix{Op: "+", L: il(1), R: il(1)}, R: il(2)}, il(1), il(0), gast.Prefix{Op: "!", X: gast.BoolLit{V: true}}, gast.StrLit{V: "x"}, id("Flag")}
+	type arm struct {
+		name       string
+		then, els  []gast.Stmt
+		hasElse    bool
+		elseIfCond gast.Expr
+	}
+	ret := func(v int64) gast.Stmt { return gast.Return{X: il(v)} }
+	arms := []arm{
+		{"return-in-then", []gast.Stmt{tr(1), ret(10)}, []gast.Stmt{tr(2)}, true, nil},
+		{"return-in-else", []gast.Stmt{tr(1)}, []gast.Stmt{tr(2), ret(20)}, true, nil},
+		{"return-in-both", []gast.Stmt{tr(1), ret(10)}, []gast.Stmt{tr(2), ret(20)}, true, nil},
+		{"return-in-neither", []gast.Stmt{tr(1)}, []gast.Stmt{tr(2)}, true, nil},
+		{"no-else", []gast.Stmt{tr(1), ret(10)}, nil, false, nil},
+		{"no-else-no-return", []gast.Stmt{tr(1)}, nil, false, nil},
+		{"empty-then", nil, []gast.Stmt{tr(2), ret(20)}, true, nil},
+		{"else-if", []gast.Stmt{tr(1)}, []gast.Stmt{tr(2), ret(20)}, true, id("Other")},
+	}
+	n := 0
+	for ci, cond := range conds {
+		for _, a := range arms {
+			for variant := 0; variant < 6; variant++ {
+				n++
+				cid := fmt.Sprintf("const-cond/%d/%s/%d", ci, a.name, variant)
+				if !c.Want(cid) {
+					continue
+				}
+				ifs := gast.If{C: cond, Then: a.then, HasElse: a.hasElse, Else: a.els}
+				if a.elseIfCond != nil {
+					ifs.ElseIf = true
+					ifs.Else = []gast.Stmt{gast.If{C: a.elseIfCond, Then: a.els, HasElse: true, Else: []gast.Stmt{tr(5)}}}
+				}
+				tail := []gast.Stmt{tr(3, id("seen")), gast.Return{X: gast.StrLit{V: "end"}}}
+				var body []gast.Stmt
+				switch variant {
+				case 0: // the if comes first
+					body = append([]gast.Stmt{ifs}, tail...)
+				case 1: // after plain statements
+					body = append([]gast.Stmt{gast.Assign{Name: "seen", X: il(7)}, tr(0), ifs}, tail...)
+				case 2: // after an earlier conditional jump
+					body = append([]gast.Stmt{gast.If{C: id("Flag"), Then: []gast.Stmt{tr(8)}}, ifs}, tail...)
+				case 3: // as loop condition shape: while with a constant condition leaving by return
+					body = append([]gast.Stmt{gast.Assign{Name: "w", X: il(2)}, gast.While{C: gast.Infix{Op: ">", L: id("w"), R: il(0)}, Body: []gast.Stmt{gast.IncDec{Name: "w", Op: "--"}, ifs}}}, tail...)
+				case 4: // nested in a constant-true if
+					body = append([]gast.Stmt{gast.If{C: gast.BoolLit{V: true}, Then: []gast.Stmt{ifs, tr(6)}}}, tail...)
+				case 5: // ternary with the same condition in front
+					body = append([]gast.Stmt{gast.Assign{Name: "seen", X: gast.Ternary{C: cond, A: il(1), B: il(2)}}, ifs}, tail...)
+				}
+				progs := []gast.Program{{Stmts: body}, {Stmts: []gast.Stmt{gast.FuncDef{Name: "fn", Params: []string{"q"}, Body: body}, gast.Assign{Name: "r", X: gast.Call{Fn: "fn", Args: []gast.Expr{il(1)}}}, tr(9, id("r")), gast.Return{X: id("r")}}}}
+				objs := []map[string]model.Value{{"Flag": model.Bool(true), "Other": model.Bool(false)}, {"Flag": model.Bool(false), "Other": model.Bool(true)}}
+				for pi, p := range progs {
+					for _, noOpt := range []bool{false, true} {
+						judged := checkProgramAgainstModel(c, cid, "control flow under a constant condition", p, nil, objs, noOpt)
+						c.Case(gast.Text(p)+fmt.Sprint(noOpt, pi), judged > 0)
+					}
+				}
+			}
 		}
 	}
 }
